@@ -642,8 +642,271 @@ def _part_a(task, rec):
                               f'reference {xref}', dict(case, row=ri, draw=d), expected=xref, observed=xs)
 
 
+# --------------------------------------------------------------------------- part d: data frames
+# Observation i of a Database is its i-th row (by position), whatever labels the pandas index carries, and
+# epsilons[i] are the draws of that observation.  A data frame is (sequence of alphabet rows, kind of index
+# labels, how the frame got them: given directly, or produced by the real operation that leaves such labels
+# behind -- DataFrame.sort_values, Database.remove, pandas.concat).
+D_SEQS_QUICK = ((0, 1), (1, 0, 1))
+D_SEQS_THOROUGH = ((0, 1), (1, 0, 1), (0,), (1,), (1, 0), (0, 0, 1), (0, 1, 1, 0))
+D_KINDS = ('range', 'reversed', 'rotated', 'offset', 'gaps', 'far', 'negative', 'duplicate', 'string', 'float',
+           'string-digits')
+D_KINDS_QUICK = ('range', 'reversed', 'rotated', 'offset', 'gaps', 'far', 'negative', 'duplicate', 'string-digits')
+D_OPS = {'reversed': 'sort_values', 'rotated': 'sort_values', 'offset': 'remove', 'gaps': 'remove',
+         'duplicate': 'concat'}
+D_COLUMNS = ['unused', 'z', 'x', 'pos', 'drop']
+ALL_DRAWS = [tuple(float(v) for v in e) for e in itertools.product((-1.0, 0.0, 1.0), repeat=3)]
+
+
+def index_labels(kind, n):
+    if kind == 'range':
+        return list(range(n))
+    if kind == 'reversed':
+        return list(range(n - 1, -1, -1))
+    if kind == 'rotated':
+        return [(i + 1) % n for i in range(n)]
+    if kind == 'offset':
+        return [i + 1 for i in range(n)]
+    if kind == 'gaps':
+        return [2 * i + (1 if i else 0) for i in range(n)]        # 0, 3, 5, ...
+    if kind == 'far':
+        return [1000003 - 7 * i for i in range(n)]
+    if kind == 'negative':
+        return [-1 - i for i in range(n)]
+    if kind == 'duplicate':
+        return [i % ((n + 1) // 2) for i in range(n)]             # 0,0 / 0,1,0 / 0,1,0,1
+    if kind == 'string':
+        return ['r' + 'abcdefgh'[n - 1 - i] for i in range(n)]
+    if kind == 'string-digits':
+        return [str((i + 1) % n) for i in range(n)]
+    if kind == 'float':
+        return [0.5 + i for i in range(n)]
+    raise ValueError(kind)
+
+
+def index_class(labels):
+    n = len(labels)
+    if labels == list(range(n)):
+        return 'default'
+    if not all(isinstance(v, int) for v in labels):
+        return 'non-integer-labels'
+    if len(set(labels)) < n:
+        return 'duplicate-labels'
+    if sorted(labels) == list(range(n)):
+        return 'permutation-of-0..n-1'
+    return 'integer-labels-not-0..n-1'
+
+
+def frames(tier):
+    """(sequence, kind, how) of every data frame of the tier; frames with the same labels obtained the same way
+    (e.g. 'reversed' and 'rotated' on two rows) are listed once."""
+    out, seen = [], set()
+    for seq in (D_SEQS_QUICK if tier == 'quick' else D_SEQS_THOROUGH):
+        for kind in (D_KINDS_QUICK if tier == 'quick' else D_KINDS):
+            hows = ['direct'] + ([D_OPS[kind]] if kind in D_OPS else [])
+            if tier == 'quick' and kind in D_OPS:
+                hows = hows[1:]      # quick: the labels left behind by the real operation only
+            for how in hows:
+                sig = (seq, tuple(index_labels(kind, len(seq))), how)
+                if sig in seen or (how == 'concat' and len(seq) < 2):
+                    continue
+                seen.add(sig)
+                out.append([list(seq), kind, how])
+    return out
+
+
+def build_frame(alph, frame):
+    """-> (Database, labels).  Row i of the result holds alphabet row seq[i] (and pos = i, drop = 0)."""
+    import pandas as pd
+    from biogeme.database import Database
+    from biogeme.expressions import Variable
+
+    seq, kind, how = frame
+    n = len(seq)
+    labels = index_labels(kind, n)
+    recs = [dict(alph['rows'][s], pos=float(i), drop=0.0) for i, s in enumerate(seq)]
+    if how == 'direct':
+        db = Database('d18', pd.DataFrame(recs, columns=D_COLUMNS, index=labels))
+    elif how == 'sort_values':
+        # a frame with the default index whose row number L is the one that must end up with label L
+        pre = [None] * n
+        for i, lbl in enumerate(labels):
+            pre[lbl] = recs[i]
+        db = Database('d18', pd.DataFrame(pre, columns=D_COLUMNS).sort_values('pos'))
+    elif how == 'remove':
+        filler = dict(alph['rows'][1 - seq[0]], pos=-1.0, drop=1.0)
+        pre = [dict(filler) for _ in range(max(labels) + 2)]
+        for i, lbl in enumerate(labels):
+            pre[lbl] = recs[i]
+        db = Database('d18', pd.DataFrame(pre, columns=D_COLUMNS))
+        db.remove(Variable('drop'))
+    elif how == 'concat':
+        h = (n + 1) // 2
+        db = Database('d18', pd.concat([pd.DataFrame(recs[:h], columns=D_COLUMNS), pd.DataFrame(recs[h:], columns=D_COLUMNS)]))
+    else:
+        raise ValueError(how)
+    got = list(db.data.index)
+    if got != labels or [float(v) for v in db.data['pos']] != [float(i) for i in range(n)]:
+        raise AssertionError(f'harness: frame {frame} has index {got} pos {list(db.data["pos"])}, wanted {labels}')
+    return db, labels
+
+
+def draws_of_observation(i, nd):
+    """nd different draws; another selection / order for every observation (11 is coprime with 27)."""
+    return [ALL_DRAWS[(3 + 5 * i + 11 * j) % 27] for j in range(nd)]
+
+
+def dkey(clause, cls):
+    return f'C18|forecast-on-data-frame:{clause}|index:{cls}'
+
+
+def _d_frame(rec, model, cfg, pset, lab, budget, frame, nd, alph, name, refs, fails, split_orders):
+    """One data frame: Mdcev.forecast on the whole table, then the rows of Database.mdcev_row_split given to the
+    one-draw function.  Failures go to ``fails`` (at most one per clause and frame)."""
+    import numpy as np
+
+    seq, kind, how = frame
+    labels = lab['labels']
+    n = len(seq)
+    ftag = (tuple(seq), kind, how)
+    ck = ('d', name, pset, budget, tuple(labels), lab['order'], ftag, nd)
+    case = dict(part='d', cfg=cfg, pset=pset, lab=lab, budget=budget, frame=frame, ndraws=nd, seed=_SEED)
+    db, idx = build_frame(alph, frame)
+    cls = index_class(idx)
+    rec.count('frame_index_class:' + cls)
+    where = (f'{name} params {pset} budget {budget} labels {labels}: data frame with rows {list(seq)} of the alphabet, '
+             f'index labels {idx} ({how})')
+
+    def fail(clause, what, expected=None, observed=None):
+        fails.append((clause, cls, f'{where}: {what}', case, expected, observed))
+
+    def ref_of(s, eps):
+        if (s, eps) not in refs:
+            try:
+                refs[(s, eps)] = Ref(cfg, alph['psets'][pset], alph['rows'][s]).solve(budget, eps)[0]
+            except (ArithmeticError, ValueError, ZeroDivisionError):
+                refs[(s, eps)] = None
+        return refs[(s, eps)]
+
+    def vec(eps):
+        v = np.zeros(3)
+        for k in range(3):
+            v[model.key_to_index[labels[k]]] = eps[k]
+        return v
+
+    draws = [draws_of_observation(i, nd) for i in range(n)]
+    # in-domain only: every (row, draw) of the table must have a reference solution
+    if any(ref_of(seq[i], e) is None for i in range(n) for e in draws[i]):
+        rec.count('skipped_reference_has_no_solution')
+        return
+    tol = 1e-6 * max(1.0, budget)
+
+    def who(xs):
+        """Which (row position, observation whose draws) the answer is the optimum of -- text only."""
+        hits = []
+        for i2 in range(n):
+            for i3 in range(n):
+                for j3, e in enumerate(draws[i3]):
+                    r = ref_of(seq[i2], e)
+                    if r is not None and all(abs(xs[k] - r[k]) <= tol for k in range(3)):
+                        hits.append(f'row at position {i2} with draw #{j3} of observation {i3}')
+        return ('it is the optimum of ' + ' / '.join(hits[:3])) if hits else 'it is the optimum of no (row, draw) of the table'
+
+    # (1) the data-frame API
+    try:
+        res = model.forecast(database=db, total_budget=budget, epsilons=[np.array([vec(e) for e in draws[i]]) for i in range(n)])
+    except Exception as e:  # noqa: BLE001
+        rec.case(None, (ck, 'raised', type(e).__name__), outcome=f'frame|api-raised:{type(e).__name__}')
+        rec.count('forecast_api_raised')
+        fail('forecast-raises:' + type(e).__name__, f'Mdcev.forecast ({n} rows x {nd} draws) raised {type(e).__name__}: {str(e)[:200]}',
+             observed=f'{type(e).__name__}: {str(e)[:200]}')
+        if isinstance(e, RuntimeError):
+            rec.retire = True
+        res = None
+    if res is not None:
+        ok = len(res) == n and all(list(f.columns) == sorted(labels) and len(f) == nd for f in res)
+        if not ok:
+            rec.case(None, (ck, 'shape'), outcome='frame|api-shape')
+            fail('forecast-shape', f'{len(res)} frames, columns {[list(f.columns) for f in res][:4]}, lengths {[len(f) for f in res]}',
+                 expected=dict(frames=n, columns=sorted(labels), rows=nd))
+        else:
+            first = True
+            for i in range(n):
+                for j, eps in enumerate(draws[i]):
+                    xs = [float(res[i][labels[k]].iloc[j]) for k in range(3)]
+                    xref = ref_of(seq[i], eps)
+                    good = all(abs(xs[k] - xref[k]) <= tol for k in range(3))
+                    rec.case(ck + ('api', i, j), (ck, i, j, [round(v, 7) for v in xs]),
+                             outcome=f"{cfg['variant']}|frame|{cls}|{'ok' if good else 'bad'}")
+                    if not good and first:
+                        first = False
+                        fail('observation-i-is-not-the-ith-row-with-its-draws',
+                             f'forecast()[{i}] draw #{j} {list(eps)} gives x(A,B,C)={xs}; the optimum for the row at position {i} '
+                             f'(alphabet row {seq[i]}) is {xref}; {who(xs)}', expected=xref, observed=xs)
+                    elif not good:
+                        rec.count('frame_further_wrong_answers')
+    # (2) the library's own split of the table, fed to the one-draw function
+    for order in split_orders:
+        try:
+            rows = db.mdcev_row_split() if order == 'all' else db.mdcev_row_split(range(n - 1, -1, -1))
+            if order != 'all':
+                rows = list(reversed(rows))
+        except Exception as e:  # noqa: BLE001
+            rec.case(None, (ck, 'split', order, type(e).__name__), outcome='frame|split-raised')
+            fail('mdcev_row_split-raises:' + type(e).__name__, f'Database.mdcev_row_split [{order}] raised {type(e).__name__}: {str(e)[:200]}',
+                 observed=f'{type(e).__name__}: {str(e)[:200]}')
+            continue
+        if len(rows) != n or any(len(r.data) != 1 for r in rows):
+            rec.case(None, (ck, 'split', order, 'shape'), outcome='frame|split-shape')
+            fail('mdcev_row_split-shape', f'[{order}] {len(rows)} databases of sizes {[len(r.data) for r in rows]}', expected=[1] * n)
+            continue
+        first = True
+        for i in range(n):
+            eps = draws[i][0]
+            out = run_one_forecast(model, cfg, lab, rows[i], budget, eps)
+            xref = ref_of(seq[i], eps)
+            if isinstance(out, tuple):
+                rec.case(None, (ck, 'split', order, i, out), outcome=f'frame|split|raised:{out[1]}')
+                if first:
+                    first = False
+                    fail('forecast-of-a-split-row-raises:' + out[1], f'[{order}] row {i}: {out[1]}: {out[2]}', expected=xref, observed=f'{out[1]}: {out[2]}')
+                if out[1] == 'RuntimeError':
+                    rec.retire = True
+                continue
+            good = all(abs(out[k] - xref[k]) <= tol for k in range(3))
+            rec.case(ck + ('split', order, i), (ck, order, i, [round(v, 7) for v in out]),
+                     outcome=f"{cfg['variant']}|frame-split|{cls}|{'ok' if good else 'bad'}")
+            if not good and first:
+                first = False
+                fail('mdcev_row_split-row-i-is-not-the-ith-row',
+                     f'[{order}] forecast for the database of row {i}, draw {list(eps)}, gives x(A,B,C)={out}; the optimum for the row at '
+                     f'position {i} is {xref}; {who(out)}', expected=xref, observed=out)
+
+
+def _part_d(task, rec):
+    alph = alphabet(task.get('seed', _SEED))
+    cfg, pset, lab, budget, nd = task['cfg'], task['pset'], task['lab'], task['budget'], task['ndraws']
+    name = cfg_name(cfg)
+    model = build_model(cfg, lab, alph['psets']['D'])
+    set_params(model, alph, pset)
+    refs, fails = {}, []
+    per_frame = []
+    for frame in task['frames']:
+        before = len(fails)
+        _d_frame(rec, model, cfg, pset, lab, budget, frame, nd, alph, name, refs, fails, task.get('split', ['all', 'reversed-range']))
+        per_frame.append((frame, len(fails) > before))
+    if task.get('sample') and task['frames']:
+        rec.sample(dict(part='d', cfg=cfg, frames=[f for f, _ in per_frame], failed=[b for _, b in per_frame]))
+    # a clause that also fails on a frame with the default index is not about the index: one key ('index:any')
+    force = task.get('force_cls')
+    default_fails = {clause for clause, cls, *_ in fails if cls == 'default'}
+    for clause, cls, what, case, expected, observed in fails:
+        c = force if force is not None else ('any' if clause in default_fails else cls)
+        rec.violation(dkey(clause, c), what, dict(case, cls=c), expected=expected, observed=observed)
+
+
 # --------------------------------------------------------------------------- part p: pieces
-X_GRID = (0.0, 0.25, 1.0, 3.0, 10.0)
+X_GRID =(0.0, 0.25, 1.0, 3.0, 10.0)
 E_GRID = (-1.0, 0.0, 1.0)
 L_GRID = (0.0625, 0.5, 2.0, 8.0)
 PIECE_REL = 1e-9
@@ -982,6 +1245,19 @@ def tasks(tier, seed):
     for cfg in cfgs:
         for ps, b, li in api:
             t.append(dict(part='a', cfg=cfg, pset=ps, budget=b, lab=labs[li], seed=seed))
+    # data frames: which row is observation i (index labels of the pandas frame, real operations that produce them)
+    frs = frames(tier)
+    if tier == 'quick':
+        for ci, cfg in enumerate(cfgs):
+            ps, b, li = (('D', 1.0, 7), ('B', 10.0, 9))[(ci + ci // 4) % 2]
+            t.append(dict(part='d', cfg=cfg, pset=ps, budget=b, lab=labs[li], frames=frs, ndraws=3, split=['all'], seed=seed,
+                          sample=ci == 0))
+    else:
+        for ci, cfg in enumerate(cfgs):
+            for ps, b, li in (('D', 1.0, 7), ('B', 10.0, 9), ('A', 10.0, 0), ('D', 0.125, 10)):
+                for c0 in range(0, len(frs), 24):
+                    t.append(dict(part='d', cfg=cfg, pset=ps, budget=b, lab=labs[li], frames=[frs[0]] + frs[max(c0, 1):c0 + 24], ndraws=9,
+                                  seed=seed, sample=ci == 0 and c0 == 0 and ps == 'D' and li == 7))
     h_lab = [labs[0], labs[9]] if tier == 'thorough' else [labs[9]]
     for cfg in cfgs:
         if cfg['prices'] != HAS_PRICES[cfg['variant']] or not cfg['scale']:
@@ -1005,6 +1281,8 @@ def run_task(task):
         _part_p(task, rec)
     elif part == 'h':
         _part_h(task, rec)
+    elif part == 'd':
+        _part_d(task, rec)
     return rec.result()
 
 
@@ -1022,6 +1300,9 @@ def replay(case):
         _part_f(task, rec)
     elif part == 'a':
         _part_a(dict(case), rec)
+    elif part == 'd':
+        _part_d(dict(part='d', cfg=case['cfg'], pset=case['pset'], lab=case['lab'], budget=case['budget'], frames=[case['frame']],
+                     ndraws=case['ndraws'], seed=seed, force_cls=case.get('cls')), rec)
     elif part == 'p':
         task = dict(part='p', cfg=case['cfg'], pset=case['pset'], rows=[case['row']], labs=[case['lab']], seed=seed)
         if case['kind'] == 'validation':
